@@ -22,7 +22,17 @@ use crate::refmodel::varmodel::{
     bbox_of, composed_points, composed_points_model, decode_cvar, decode_gvar, eval_cvt, decode_hvar, decode_mvar, eval_glyph, implied_axis_region, metric_fields,
     axis_region_invalid, read_font, AxisRegion, HvarModel, IvsModel, OutShape, ParsedFont, Region, TupleVar,
 };
+use crate::fontgen::cff::build_otf;
+use crate::fontgen::type2::{diff_commands, Cmd};
+use crate::props::c18;
+use crate::refmodel::type2::{Deviations, T2Font};
+use crate::refmodel::varmodel::{read_hmtx, region_scalar};
 use allsorts::binary::read::ReadScope;
+use allsorts::cff::cff2::CFF2;
+use allsorts::cff::outline::CFF2Outlines;
+use allsorts::outline::{OutlineBuilder, OutlineSink};
+use allsorts::pathfinder_geometry::line_segment::LineSegment2F;
+use allsorts::pathfinder_geometry::vector::Vector2F;
 use allsorts::font::Font;
 use allsorts::font_data::FontData;
 use allsorts::tables::Fixed;
@@ -557,6 +567,204 @@ fn subset(mask: &[bool], phantom_mask: &[bool], seed: u32, n: usize) -> Vec<u16>
     v
 }
 
+/// fvar axis records plus the fvar table and (if wanted) a valid avar table for the axis specs.
+fn axes_tables(specs: &[AxisSpec], with_avar: bool) -> (Vec<AxisModel>, Vec<u8>, Option<Vec<u8>>) {
+    let axes: Vec<AxisModel> = specs
+        .iter()
+        .enumerate()
+        .map(|(i, a)| {
+            let d = (a.default_units as i32) << 16;
+            AxisModel {
+                tag: if a.wght && i == 0 { *b"wght" } else { [b'A', b'X', b'0', b'0' + i as u8] },
+                min: d - ((a.below as i32) << 16),
+                default: d,
+                max: d + ((a.above as i32) << 16),
+                flags: 0,
+                name_id: 256 + i as u16,
+            }
+        })
+        .collect();
+    let fvar = fvar_table(&axes, &[], 0);
+    let avar = if with_avar {
+        let maps: Vec<Vec<(i16, i16)>> = specs
+            .iter()
+            .map(|a| {
+                // valid per spec: from strictly increasing, to non-decreasing, -1→-1, 0→0, 1→1
+                let mut m = vec![(-16384i16, -16384i16), (0, 0), (16384, 16384)];
+                let mut ks: Vec<(i16, i16)> = a.avar.clone();
+                ks.sort();
+                ks.dedup_by_key(|k| k.0);
+                let mut tos: Vec<i16> = ks.iter().map(|k| k.1).collect();
+                tos.sort();
+                for (i, k) in ks.iter().enumerate() {
+                    if k.0 < 16384 {
+                        if i % 2 == 0 {
+                            m.push((k.0, tos[i]));
+                        } else {
+                            m.push((-k.0, -tos[i]));
+                        }
+                    }
+                }
+                m.sort();
+                m.dedup_by_key(|k| k.0);
+                for i in 1..m.len() {
+                    if m[i].1 < m[i - 1].1 {
+                        m[i].1 = m[i - 1].1;
+                    }
+                }
+                let z = m.iter().position(|k| k.0 == 0).unwrap();
+                for (i, k) in m.iter_mut().enumerate() {
+                    if i < z {
+                        k.1 = k.1.min(0);
+                    } else if i == z {
+                        k.1 = 0;
+                    } else {
+                        k.1 = k.1.max(0);
+                    }
+                }
+                let last = m.len() - 1;
+                m[0].1 = -16384;
+                m[last].1 = 16384;
+                for i in 1..m.len() {
+                    if m[i].1 < m[i - 1].1 {
+                        m[i].1 = m[i - 1].1;
+                    }
+                }
+                m
+            })
+            .collect();
+        Some(avar_table(&maps))
+    } else {
+        None
+    };
+
+    (axes, fvar, avar)
+}
+
+/// Encode an HVAR table from per-glyph advance delta rows (one delta per region), following
+/// the free encoding choices of `h`; returns the table and the model it was built from.
+fn encode_hvar(h: &HvarSpec, n_axes: usize, regions: &[Region], adv_rows: &[Vec<i32>]) -> (Vec<u8>, HvarModel) {
+    let nr = regions.len();
+    let n_glyphs = adv_rows.len();
+        let all_cols: Vec<u16> = {
+            // a permutation of the region indexes
+            let mut v: Vec<u16> = (0..nr as u16).collect();
+            let mut c2 = Choices::new(h.seed as u64);
+            for i in (1..v.len()).rev() {
+                v.swap(i, c2.below(i + 1));
+            }
+            v
+        };
+        let project = |rows: &[Vec<i32>], cols: &[u16]| -> Vec<Vec<i32>> { rows.iter().map(|r| cols.iter().map(|c| r[*c as usize]).collect()).collect() };
+        let mut subs: Vec<IvdEnc> = Vec::new();
+        let mut adv_entries: Vec<(u16, u16)> = Vec::new();
+        if !h.mapped {
+            subs.push(IvdEnc::normalise(all_cols.clone(), project(&adv_rows, &all_cols), h.long_words, h.extra_words as usize));
+        } else {
+            let k = (h.subtables as usize).min(n_glyphs).max(1);
+            let mut groups: Vec<Vec<usize>> = vec![Vec::new(); k];
+            for g in 0..n_glyphs {
+                groups[(mix64(h.seed as u64 ^ (g as u64) << 8) % k as u64) as usize].push(g);
+            }
+            adv_entries = vec![(0, 0); n_glyphs];
+            for grp in groups.iter().filter(|g| !g.is_empty()) {
+                let cols: Vec<u16> = if h.seed & 2 == 0 {
+                    all_cols.clone()
+                } else {
+                    all_cols.iter().copied().filter(|c| grp.iter().any(|g| adv_rows[*g][*c as usize] != 0)).collect()
+                };
+                // identical rows are stored once
+                let mut rows: Vec<Vec<i32>> = Vec::new();
+                for g in grp {
+                    let r: Vec<i32> = cols.iter().map(|c| adv_rows[*g][*c as usize]).collect();
+                    let ix = match rows.iter().position(|x| *x == r) {
+                        Some(ix) if h.seed & 4 == 0 => ix,
+                        _ => {
+                            rows.push(r);
+                            rows.len() - 1
+                        }
+                    };
+                    adv_entries[*g] = (subs.len() as u16, ix as u16);
+                }
+                subs.push(IvdEnc::normalise(cols, rows, h.long_words, h.extra_words as usize));
+            }
+        }
+        let mut lsb_entries: Vec<(u16, u16)> = Vec::new();
+        if h.lsb_map {
+            let rows: Vec<Vec<i32>> = (0..n_glyphs)
+                .map(|g| (0..nr).map(|r| (mix64(h.seed as u64 ^ ((g * 31 + r) as u64) << 12) % 81) as i32 - 40).collect())
+                .collect();
+            lsb_entries = (0..n_glyphs).map(|g| (subs.len() as u16, g as u16)).collect();
+            subs.push(IvdEnc::normalise(all_cols.clone(), project(&rows, &all_cols), false, 0));
+        }
+        let ivs_model = IvsModel { regions: regions.to_vec(), subtables: subs.iter().map(|s| (s.region_indexes.clone(), s.rows.clone())).collect() };
+        let ivs = item_variation_store(n_axes, regions, &subs);
+        let enc_map = |entries: &[(u16, u16)], truncate: bool| -> (Vec<u8>, Vec<(u16, u16)>) {
+            let mut e = entries.to_vec();
+            if truncate {
+                while e.len() >= 2 && e[e.len() - 1] == e[e.len() - 2] {
+                    e.pop();
+                }
+            }
+            let (ib, _) = min_map_format(&e);
+            let ib = (ib + h.extra_inner_bits).min(16);
+            let max_outer = e.iter().map(|x| x.0).max().unwrap_or(0) as u32;
+            let ob = 32 - max_outer.leading_zeros();
+            let need = ((ib as u32 + ob + 7) / 8).max(1) as u8;
+            let size = need.max(h.entry_size).min(4);
+            (delta_set_index_map(&e, ib, size, if h.format1 { 1 } else { 0 }), e)
+        };
+        let adv = if h.mapped { Some(enc_map(&adv_entries, h.truncate)) } else { None };
+        let lsb = if h.lsb_map { Some(enc_map(&lsb_entries, false)) } else { None };
+        let bytes = hvar_table(&ivs, adv.as_ref().map(|m| m.0.as_slice()), lsb.as_ref().map(|m| m.0.as_slice()), None);
+        let model = HvarModel { ivs: ivs_model, adv_map: adv.map(|m| m.1), lsb_map: lsb.map(|m| m.1) };
+        // self-check of the encoder/decoder pair (both mine)
+        let dec = decode_hvar(&bytes).expect("own HVAR decodes");
+        assert_eq!(dec.ivs, model.ivs, "HVAR store round trip");
+        assert_eq!(dec.adv_map, model.adv_map, "HVAR advance map round trip");
+        assert_eq!(dec.lsb_map, model.lsb_map, "HVAR lsb map round trip");
+        (bytes, model)
+}
+
+/// Encode an MVAR table for the spec; returns the table, the model (records + store) and the
+/// regions used.
+fn encode_mvar(m: &MvarSpec, n_axes: usize, allow_invalid: bool) -> (Vec<u8>, (Vec<([u8; 4], u16, u16)>, IvsModel), Vec<Region>) {
+        let mut regions: Vec<Region> = Vec::new();
+        for r in &m.regions {
+            let reg = resolve_region(r, n_axes, allow_invalid);
+            if !regions.contains(&reg) {
+                regions.push(reg);
+            }
+        }
+        let mut tags: Vec<[u8; 4]> = Vec::new();
+        for t in &m.tags {
+            let tag = *MVAR_TAGS[*t as usize];
+            if !tags.contains(&tag) {
+                tags.push(tag);
+            }
+        }
+        let k = (m.subtables as usize).max(1);
+        let cols: Vec<u16> = (0..regions.len() as u16).collect();
+        let mut rows: Vec<Vec<Vec<i32>>> = vec![Vec::new(); k];
+        let mut recs: Vec<([u8; 4], u16, u16)> = Vec::new();
+        for (i, tag) in tags.iter().enumerate() {
+            let sub = i % k;
+            let row: Vec<i32> = (0..regions.len()).map(|r| m.deltas[i % m.deltas.len()][r % 3] as i32).collect();
+            recs.push((*tag, sub as u16, rows[sub].len() as u16));
+            rows[sub].push(row);
+        }
+        let subs: Vec<IvdEnc> = rows.into_iter().map(|r| IvdEnc::normalise(cols.clone(), r, m.long_words, 0)).collect();
+        let ivs_model = IvsModel { regions: regions.clone(), subtables: subs.iter().map(|s| (s.region_indexes.clone(), s.rows.clone())).collect() };
+        let ivs = item_variation_store(n_axes, &regions, &subs);
+        let bytes = mvar_table(&recs, 8 + m.record_extra as u16 * 2, Some(&ivs));
+        let (drecs, divs) = decode_mvar(&bytes).expect("own MVAR decodes");
+        let mut sorted = recs.clone();
+        sorted.sort();
+        assert_eq!(drecs, sorted, "MVAR records round trip");
+        assert_eq!(divs.as_ref(), Some(&ivs_model), "MVAR store round trip");
+        (bytes, (recs, ivs_model), regions)
+}
+
 fn build(case: &Case) -> Built {
     let n_axes = case.axes.len();
     let mut ch = Choices::new(case.enc_seed);
@@ -709,76 +917,7 @@ fn build(case: &Case) -> Built {
     let gvar = gvar_table(n_axes, &encs, &shared_peak_pool, case.long_gvar, &mut ch, &mut stats);
 
     // ---- fvar / avar
-    let axes: Vec<AxisModel> = case
-        .axes
-        .iter()
-        .enumerate()
-        .map(|(i, a)| {
-            let d = (a.default_units as i32) << 16;
-            AxisModel {
-                tag: if a.wght && i == 0 { *b"wght" } else { [b'A', b'X', b'0', b'0' + i as u8] },
-                min: d - ((a.below as i32) << 16),
-                default: d,
-                max: d + ((a.above as i32) << 16),
-                flags: 0,
-                name_id: 256 + i as u16,
-            }
-        })
-        .collect();
-    let fvar = fvar_table(&axes, &[], 0);
-    let avar = if case.with_avar {
-        let maps: Vec<Vec<(i16, i16)>> = case
-            .axes
-            .iter()
-            .map(|a| {
-                // valid per spec: from strictly increasing, to non-decreasing, -1→-1, 0→0, 1→1
-                let mut m = vec![(-16384i16, -16384i16), (0, 0), (16384, 16384)];
-                let mut ks: Vec<(i16, i16)> = a.avar.clone();
-                ks.sort();
-                ks.dedup_by_key(|k| k.0);
-                let mut tos: Vec<i16> = ks.iter().map(|k| k.1).collect();
-                tos.sort();
-                for (i, k) in ks.iter().enumerate() {
-                    if k.0 < 16384 {
-                        if i % 2 == 0 {
-                            m.push((k.0, tos[i]));
-                        } else {
-                            m.push((-k.0, -tos[i]));
-                        }
-                    }
-                }
-                m.sort();
-                m.dedup_by_key(|k| k.0);
-                for i in 1..m.len() {
-                    if m[i].1 < m[i - 1].1 {
-                        m[i].1 = m[i - 1].1;
-                    }
-                }
-                let z = m.iter().position(|k| k.0 == 0).unwrap();
-                for (i, k) in m.iter_mut().enumerate() {
-                    if i < z {
-                        k.1 = k.1.min(0);
-                    } else if i == z {
-                        k.1 = 0;
-                    } else {
-                        k.1 = k.1.max(0);
-                    }
-                }
-                let last = m.len() - 1;
-                m[0].1 = -16384;
-                m[last].1 = 16384;
-                for i in 1..m.len() {
-                    if m[i].1 < m[i - 1].1 {
-                        m[i].1 = m[i - 1].1;
-                    }
-                }
-                m
-            })
-            .collect();
-        Some(avar_table(&maps))
-    } else {
-        None
-    };
+    let (axes, fvar, avar) = axes_tables(&case.axes, case.with_avar);
 
     // ---- HVAR, consistent with the phantom point deltas of gvar
     let mut hvar_model = None;
@@ -805,84 +944,8 @@ fn build(case: &Case) -> Built {
             }
             adv_rows.push(row);
         }
-        let all_cols: Vec<u16> = {
-            // a permutation of the region indexes
-            let mut v: Vec<u16> = (0..nr as u16).collect();
-            let mut c2 = Choices::new(h.seed as u64);
-            for i in (1..v.len()).rev() {
-                v.swap(i, c2.below(i + 1));
-            }
-            v
-        };
-        let project = |rows: &[Vec<i32>], cols: &[u16]| -> Vec<Vec<i32>> { rows.iter().map(|r| cols.iter().map(|c| r[*c as usize]).collect()).collect() };
-        let mut subs: Vec<IvdEnc> = Vec::new();
-        let mut adv_entries: Vec<(u16, u16)> = Vec::new();
-        if !h.mapped {
-            subs.push(IvdEnc::normalise(all_cols.clone(), project(&adv_rows, &all_cols), h.long_words, h.extra_words as usize));
-        } else {
-            let k = (h.subtables as usize).min(glyphs.len()).max(1);
-            let mut groups: Vec<Vec<usize>> = vec![Vec::new(); k];
-            for g in 0..glyphs.len() {
-                groups[(mix64(h.seed as u64 ^ (g as u64) << 8) % k as u64) as usize].push(g);
-            }
-            adv_entries = vec![(0, 0); glyphs.len()];
-            for grp in groups.iter().filter(|g| !g.is_empty()) {
-                let cols: Vec<u16> = if h.seed & 2 == 0 {
-                    all_cols.clone()
-                } else {
-                    all_cols.iter().copied().filter(|c| grp.iter().any(|g| adv_rows[*g][*c as usize] != 0)).collect()
-                };
-                // identical rows are stored once
-                let mut rows: Vec<Vec<i32>> = Vec::new();
-                for g in grp {
-                    let r: Vec<i32> = cols.iter().map(|c| adv_rows[*g][*c as usize]).collect();
-                    let ix = match rows.iter().position(|x| *x == r) {
-                        Some(ix) if h.seed & 4 == 0 => ix,
-                        _ => {
-                            rows.push(r);
-                            rows.len() - 1
-                        }
-                    };
-                    adv_entries[*g] = (subs.len() as u16, ix as u16);
-                }
-                subs.push(IvdEnc::normalise(cols, rows, h.long_words, h.extra_words as usize));
-            }
-        }
-        let mut lsb_entries: Vec<(u16, u16)> = Vec::new();
-        if h.lsb_map {
-            hvar_lsb_mapped = true;
-            let rows: Vec<Vec<i32>> = (0..glyphs.len())
-                .map(|g| (0..nr).map(|r| (mix64(h.seed as u64 ^ ((g * 31 + r) as u64) << 12) % 81) as i32 - 40).collect())
-                .collect();
-            lsb_entries = (0..glyphs.len()).map(|g| (subs.len() as u16, g as u16)).collect();
-            subs.push(IvdEnc::normalise(all_cols.clone(), project(&rows, &all_cols), false, 0));
-        }
-        let ivs_model = IvsModel { regions: regions.clone(), subtables: subs.iter().map(|s| (s.region_indexes.clone(), s.rows.clone())).collect() };
-        let ivs = item_variation_store(n_axes, &regions, &subs);
-        let enc_map = |entries: &[(u16, u16)], truncate: bool| -> (Vec<u8>, Vec<(u16, u16)>) {
-            let mut e = entries.to_vec();
-            if truncate {
-                while e.len() >= 2 && e[e.len() - 1] == e[e.len() - 2] {
-                    e.pop();
-                }
-            }
-            let (ib, _) = min_map_format(&e);
-            let ib = (ib + h.extra_inner_bits).min(16);
-            let max_outer = e.iter().map(|x| x.0).max().unwrap_or(0) as u32;
-            let ob = 32 - max_outer.leading_zeros();
-            let need = ((ib as u32 + ob + 7) / 8).max(1) as u8;
-            let size = need.max(h.entry_size).min(4);
-            (delta_set_index_map(&e, ib, size, if h.format1 { 1 } else { 0 }), e)
-        };
-        let adv = if h.mapped { Some(enc_map(&adv_entries, h.truncate)) } else { None };
-        let lsb = if h.lsb_map { Some(enc_map(&lsb_entries, false)) } else { None };
-        let bytes = hvar_table(&ivs, adv.as_ref().map(|m| m.0.as_slice()), lsb.as_ref().map(|m| m.0.as_slice()), None);
-        let model = HvarModel { ivs: ivs_model, adv_map: adv.map(|m| m.1), lsb_map: lsb.map(|m| m.1) };
-        // self-check of the encoder/decoder pair (both mine)
-        let dec = decode_hvar(&bytes).expect("own HVAR decodes");
-        assert_eq!(dec.ivs, model.ivs, "HVAR store round trip");
-        assert_eq!(dec.adv_map, model.adv_map, "HVAR advance map round trip");
-        assert_eq!(dec.lsb_map, model.lsb_map, "HVAR lsb map round trip");
+        let (bytes, model) = encode_hvar(h, n_axes, &regions, &adv_rows);
+        hvar_lsb_mapped = h.lsb_map;
         hvar_model = Some(model);
         hvar_bytes = Some(bytes);
     }
@@ -891,45 +954,13 @@ fn build(case: &Case) -> Built {
     let mut mvar_model = None;
     let mut mvar_bytes = None;
     if let Some(m) = &case.mvar {
-        let mut regions: Vec<Region> = Vec::new();
-        for r in &m.regions {
-            let reg = resolve_region(r, n_axes, case.invalid_regions);
-            if !regions.contains(&reg) {
-                regions.push(reg);
-            }
-        }
+        let (bytes, model, regions) = encode_mvar(m, n_axes, case.invalid_regions);
         for r in &regions {
             if !all_regions.contains(r) {
                 all_regions.push(r.clone());
             }
         }
-        let mut tags: Vec<[u8; 4]> = Vec::new();
-        for t in &m.tags {
-            let tag = *MVAR_TAGS[*t as usize];
-            if !tags.contains(&tag) {
-                tags.push(tag);
-            }
-        }
-        let k = (m.subtables as usize).max(1);
-        let cols: Vec<u16> = (0..regions.len() as u16).collect();
-        let mut rows: Vec<Vec<Vec<i32>>> = vec![Vec::new(); k];
-        let mut recs: Vec<([u8; 4], u16, u16)> = Vec::new();
-        for (i, tag) in tags.iter().enumerate() {
-            let sub = i % k;
-            let row: Vec<i32> = (0..regions.len()).map(|r| m.deltas[i % m.deltas.len()][r % 3] as i32).collect();
-            recs.push((*tag, sub as u16, rows[sub].len() as u16));
-            rows[sub].push(row);
-        }
-        let subs: Vec<IvdEnc> = rows.into_iter().map(|r| IvdEnc::normalise(cols.clone(), r, m.long_words, 0)).collect();
-        let ivs_model = IvsModel { regions: regions.clone(), subtables: subs.iter().map(|s| (s.region_indexes.clone(), s.rows.clone())).collect() };
-        let ivs = item_variation_store(n_axes, &regions, &subs);
-        let bytes = mvar_table(&recs, 8 + m.record_extra as u16 * 2, Some(&ivs));
-        let (drecs, divs) = decode_mvar(&bytes).expect("own MVAR decodes");
-        let mut sorted = recs.clone();
-        sorted.sort();
-        assert_eq!(drecs, sorted, "MVAR records round trip");
-        assert_eq!(divs.as_ref(), Some(&ivs_model), "MVAR store round trip");
-        mvar_model = Some((recs, ivs_model));
+        mvar_model = Some(model);
         mvar_bytes = Some(bytes);
     }
 
@@ -1709,6 +1740,574 @@ fn check_fixture(item: u64, rec: &mut Rec) -> CaseResult {
     Ok(())
 }
 
+// ------------------------------------------------------------------ CFF2 instancing
+
+/// A generated CFF2 variable font: the C18 charstring/table generator (path model with
+/// per-region deltas, `blend`/`vsindex`, font dicts, subroutines) wrapped into a complete
+/// OpenType font with fvar (+avar, HVAR, MVAR).
+#[derive(Clone, Debug)]
+pub struct Cff2Case {
+    pub cs: c18::Case,
+    pub axes: Vec<AxisSpec>,
+    pub with_avar: bool,
+    pub hvar: Option<HvarSpec>,
+    pub mvar: Option<MvarSpec>,
+    pub coords: Vec<Vec<CoordSpec>>,
+    pub hmtx_seed: u32,
+}
+
+pub fn cff2_case_strategy() -> impl Strategy<Value = Cff2Case> {
+    let a = (
+        any::<u64>(),
+        1usize..=6,
+        proptest::bool::weighted(0.5),
+        proptest::bool::weighted(0.6),
+        prop_oneof![2 => Just(0usize), 3 => 1usize..=4],
+        prop_oneof![2 => Just(0usize), 3 => 1usize..=4],
+        proptest::bool::weighted(0.08),
+        1usize..=10,
+        prop_oneof![40 => Just(0u8), 1 => 1u8..=4],
+        1usize..=3,
+    );
+    let b = (
+        proptest::collection::vec(axis_spec(), 1..=3),
+        any::<u8>(),
+        prop_oneof![3 => Just(1u8), 1 => 2u8..=4],
+        prop_oneof![3 => Just(0u8), 1 => 1u8..=3],
+        proptest::bool::weighted(0.3),
+        proptest::option::weighted(0.5, hvar_spec()),
+        proptest::option::weighted(0.35, mvar_spec()),
+        proptest::collection::vec(proptest::collection::vec(coord_spec(), 3), 4),
+        any::<u32>(),
+    );
+    (a, b).prop_map(
+        |((seed, nglyphs, hints, free_forms, nfrags, cuts, deep, max_segs, pad, nfd), (axes, block_order, off_size, header_extra, with_avar, hvar, mvar, coords, hmtx_seed))| Cff2Case {
+            cs: c18::Case {
+                kind: c18::Kind::Cff2,
+                seed,
+                nglyphs,
+                grid: 3,
+                hints,
+                width: false,
+                free_forms,
+                nfrags,
+                cuts,
+                deep,
+                max_segs,
+                pad,
+                nfd,
+                variable: true,
+                axes: axes.len(),
+                block_order,
+                off_size,
+                header_extra,
+                via_sfnt: true,
+            },
+            axes,
+            with_avar,
+            hvar,
+            mvar,
+            coords,
+            hmtx_seed,
+        },
+    )
+}
+
+#[derive(Default)]
+struct CmdSink {
+    cmds: Vec<Cmd>,
+}
+
+impl OutlineSink for CmdSink {
+    fn move_to(&mut self, to: Vector2F) {
+        self.cmds.push(Cmd::Move(to.x() as f64, to.y() as f64));
+    }
+    fn line_to(&mut self, to: Vector2F) {
+        self.cmds.push(Cmd::Line(to.x() as f64, to.y() as f64));
+    }
+    fn quadratic_curve_to(&mut self, ctrl: Vector2F, to: Vector2F) {
+        // never produced for CFF outlines; recorded as a curve with equal controls so that it
+        // cannot compare equal by accident
+        self.cmds.push(Cmd::Curve(ctrl.x() as f64, ctrl.y() as f64, ctrl.x() as f64, ctrl.y() as f64, to.x() as f64 + 0.123, to.y() as f64));
+    }
+    fn cubic_curve_to(&mut self, ctrl: LineSegment2F, to: Vector2F) {
+        self.cmds.push(Cmd::Curve(ctrl.from_x() as f64, ctrl.from_y() as f64, ctrl.to_x() as f64, ctrl.to_y() as f64, to.x() as f64, to.y() as f64));
+    }
+    fn close(&mut self) {
+        self.cmds.push(Cmd::Close);
+    }
+}
+
+fn render_cmds(cmds: &[Cmd]) -> String {
+    let mut s = String::new();
+    for c in cmds.iter().take(30) {
+        match c {
+            Cmd::Move(x, y) => s.push_str(&format!("M {} {} ", x, y)),
+            Cmd::Line(x, y) => s.push_str(&format!("L {} {} ", x, y)),
+            Cmd::Curve(a, b, c2, d, e, f) => s.push_str(&format!("C {} {} {} {} {} {} ", a, b, c2, d, e, f)),
+            Cmd::Close => s.push_str("Z "),
+        }
+    }
+    if cmds.len() > 30 {
+        s.push('…');
+    }
+    s
+}
+
+fn max_abs_coord(cmds: &[Cmd]) -> f64 {
+    let mut m = 0f64;
+    for c in cmds {
+        match c {
+            Cmd::Move(x, y) | Cmd::Line(x, y) => m = m.max(x.abs()).max(y.abs()),
+            Cmd::Curve(a, b, c2, d, e, f) => {
+                for v in [a, b, c2, d, e, f] {
+                    m = m.max(v.abs());
+                }
+            }
+            Cmd::Close => {}
+        }
+    }
+    m
+}
+
+/// Does a charstring / subroutine body contain the `blend` operator? Tokenises numbers and
+/// operators; gives up (false) at hintmask/cntrmask, whose length depends on the stem count.
+fn body_has_blend(b: &[u8]) -> bool {
+    let mut i = 0usize;
+    while i < b.len() {
+        match b[i] {
+            28 => i += 3,
+            255 => i += 5,
+            32..=246 => i += 1,
+            247..=254 => i += 2,
+            12 => i += 2,
+            16 => return true,
+            19 | 20 => return false,
+            _ => i += 1,
+        }
+    }
+    false
+}
+
+fn vs_region(r: &[[i16; 3]], n_axes: usize) -> Region {
+    (0..n_axes)
+        .map(|a| {
+            let t = r.get(a).copied().unwrap_or([0, 0, 0]);
+            AxisRegion { start: t[0], peak: t[1], end: t[2] }
+        })
+        .collect()
+}
+
+/// What the oracle needs to judge one instance of a CFF2 font.
+struct Cff2Expect<'a> {
+    /// expected commands per glyph at the location, and the tolerance for that glyph
+    wants: Vec<(Vec<Cmd>, f64)>,
+    src_metrics: &'a [(u16, i16)],
+    src_long_metrics: usize,
+    src_fields: &'a [([u8; 4], i32)],
+    hvar: Option<&'a HvarModel>,
+    mvar: Option<&'a (Vec<([u8; 4], u16, u16)>, IvsModel)>,
+    /// no region of the font's variation data applies at the default location (a region whose
+    /// peaks are all zero has scalar 1 everywhere): the default instance must then be exact
+    exact_default: bool,
+}
+
+/// Judge the output of `instance()` for a CFF2 font at normalised location `loc`.
+fn check_cff2_instance(e: &Cff2Expect<'_>, out_bytes: &[u8], loc: &[i16], agg: &mut Agg) -> CaseResult {
+    let at_default = e.exact_default && loc.iter().all(|v| *v == 0);
+    let (_, dir) = crate::fontgen::sfnt::parse_directory(out_bytes).ok_or_else(|| fail("cff2-output-unreadable", "no sfnt directory".into()))?;
+    for t in dir.iter().map(|d| d.tag) {
+        if &t[1..] == b"var" || &t[1..] == b"VAR" {
+            return Err(fail("var-table-in-output", format!("output still contains table {:?}", String::from_utf8_lossy(&t))));
+        }
+    }
+    let table = find_table(out_bytes, b"CFF2").ok_or_else(|| fail("cff2-output-unreadable", "the instance has no CFF2 table".into()))?;
+    // independent reader + interpreter on the output bytes
+    let mine = T2Font::parse_cff2(table).map_err(|m| fail("cff2-output-unreadable", format!("independent reader cannot parse the instanced CFF2 table: {}", m)))?;
+    if mine.vstore.is_some() {
+        return Err(fail("cff2-vstore-in-output", "the instanced CFF2 table still has a VariationStore".into()));
+    }
+    if mine.charstrings.len() != e.wants.len() {
+        return Err(fail("glyph-count", format!("{} glyphs in, {} out", e.wants.len(), mine.charstrings.len())));
+    }
+    // allsorts' own reader / visitor, no tuple
+    let cff2 = ReadScope::new(table).read::<CFF2<'_>>().map_err(|m| fail("output-not-loadable", format!("CFF2::read on the instance: {:?}", m)))?;
+    for (g, (want, tol)) in e.wants.iter().enumerate() {
+        let tol = if at_default { 1e-6 } else { *tol };
+        let got_mine = mine.outline(g, None, &Deviations::default()).map_err(|m| {
+            fail(
+                if m.contains("blend") { "cff2-blend-left-in-output" } else { "cff2-output-charstring-invalid" },
+                format!("glyph {} at {:?}: independent interpreter fails on the instanced charstring: {}; bytes {}", g, loc, m, hex::encode(mine.charstrings[g])),
+            )
+        })?;
+        if let Some(d) = diff_commands(&got_mine, want, tol) {
+            return Err(fail(
+                if at_default { "cff2-default-outline" } else { "cff2-outline" },
+                format!("glyph {} at {:?} (independent interpreter on the output): {} (tolerance {:.5}); got {} — expected {}", g, loc, d, tol, render_cmds(&got_mine), render_cmds(want)),
+            ));
+        }
+        let mut sink = CmdSink::default();
+        CFF2Outlines { table: &cff2, tuple: None }
+            .visit(g as u16, &mut sink)
+            .map_err(|m| fail("cff2-visit-error", format!("glyph {} at {:?}: allsorts cannot visit the glyph of its own instance: {:?}", g, loc, m)))?;
+        if let Some(d) = diff_commands(&sink.cmds, want, tol + 1e-3 + max_abs_coord(want) / 1_000_000.0) {
+            return Err(fail(
+                if at_default { "cff2-default-outline" } else { "cff2-outline" },
+                format!("glyph {} at {:?} (allsorts visitor on the output): {}; got {} — expected {}", g, loc, d, render_cmds(&sink.cmds), render_cmds(want)),
+            ));
+        }
+    }
+    // ---- hmtx
+    let mut hmtx_broken = false;
+    {
+        let nhm = find_table(out_bytes, b"hhea").and_then(|h| be16(h, 34)).unwrap_or(0) as usize;
+        let len = find_table(out_bytes, b"hmtx").map(|h| h.len()).unwrap_or(0);
+        let n = e.wants.len();
+        if nhm > n || len != 4 * nhm + 2 * (n - nhm) {
+            // a specific, separately reported defect: deferred so that the outlines and the
+            // other locations of the case are still judged
+            hmtx_broken = true;
+            agg.deferred.get_or_insert(fail(
+                "cff2-hmtx-length-vs-numberOfHMetrics",
+                format!("the instance's hhea.numberOfHMetrics is {} for {} glyphs but its hmtx table has {} bytes (source: {} long metrics)", nhm, n, len, e.src_long_metrics),
+            ));
+        }
+    }
+    if !hmtx_broken {
+    let om = read_hmtx(out_bytes).map_err(|m| fail("cff2-output-unreadable", m))?;
+    if om.len() != e.src_metrics.len() {
+        return Err(fail("glyph-count", format!("hmtx has {} entries, source {}", om.len(), e.src_metrics.len())));
+    }
+    for (g, ((adv_o, lsb_o), (adv_s, lsb_s))) in om.iter().zip(e.src_metrics.iter()).enumerate() {
+        match e.hvar {
+            None => {
+                if adv_o != adv_s || lsb_o != lsb_s {
+                    return Err(fail("cff2-metrics-changed-without-hvar", format!("glyph {} at {:?}: advance/lsb {}/{} but the source has {}/{} and no HVAR", g, loc, adv_o, lsb_o, adv_s, lsb_s)));
+                }
+            }
+            Some(h) => {
+                let d = h.advance_delta(g as u16, loc).ok_or_else(|| fail("hvar-row-missing", format!("glyph {}: HVAR has no delta set", g)))?;
+                let r = *adv_s as f64 + d;
+                if at_default && (adv_o != adv_s || lsb_o != lsb_s) {
+                    return Err(fail("default-metrics", format!("glyph {}: default instance has advance {} lsb {}, source {} {}", g, adv_o, lsb_o, adv_s, lsb_s)));
+                }
+                if r >= 1.0 && (*adv_o as f64 - r).abs() > TOL {
+                    return Err(fail("advance-hvar", format!("glyph {} at {:?}: advance {} but HVAR gives {:.4} = {} + {:.4}; advance map {:?}", g, loc, adv_o, r, adv_s, d, h.adv_map)));
+                }
+                match h.lsb_delta(g as u16, loc) {
+                    Some(ld) => {
+                        let l = *lsb_s as f64 + ld;
+                        if (*lsb_o as f64 - l).abs() > TOL {
+                            return Err(fail("cff2-lsb-hvar", format!("glyph {} at {:?}: lsb {} but HVAR's lsb mapping gives {:.4}", g, loc, lsb_o, l)));
+                        }
+                        agg.lsb_from_hvar += 1;
+                    }
+                    None => {
+                        if lsb_o != lsb_s {
+                            return Err(fail("cff2-lsb-changed", format!("glyph {} at {:?}: lsb {} but the source has {} and HVAR has no lsb mapping", g, loc, lsb_o, lsb_s)));
+                        }
+                    }
+                }
+            }
+        }
+    }
+    }
+    // ---- MVAR
+    let out_fields = metric_fields(out_bytes).map_err(|m| fail("cff2-output-unreadable", m))?;
+    for (tag, sv) in e.src_fields {
+        let ov = out_fields.iter().find(|f| f.0 == *tag).map(|f| f.1).ok_or_else(|| fail("cff2-output-unreadable", "metric field missing".into()))?;
+        let adj = e.mvar.and_then(|(recs, ivs)| recs.iter().find(|r| r.0 == *tag).and_then(|r| ivs.adjustment(r.1, r.2, loc)));
+        match adj {
+            None => {
+                if ov != *sv {
+                    return Err(fail("metric-without-mvar-changed", format!("{:?} changed from {} to {} at {:?} without an MVAR record", String::from_utf8_lossy(tag), sv, ov, loc)));
+                }
+            }
+            Some(a) => {
+                let r = *sv as f64 + a;
+                if (tag == b"hcla" || tag == b"hcld") && r < 1.0 {
+                    continue;
+                }
+                if at_default && ov != *sv {
+                    return Err(fail("default-mvar", format!("{:?} is {} in the default instance, source {}", String::from_utf8_lossy(tag), ov, sv)));
+                }
+                if (ov as f64 - r).abs() > TOL {
+                    return Err(fail("mvar", format!("{:?} is {} at {:?}, reference {:.4} = {} + {:.4}", String::from_utf8_lossy(tag), ov, loc, r, sv, a)));
+                }
+                agg.mvar_checked += 1;
+            }
+        }
+    }
+    // ---- loadable, not variable
+    if hmtx_broken {
+        return Ok(());
+    }
+    let fd = ReadScope::new(out_bytes).read::<FontData<'_>>().map_err(|m| fail("output-not-loadable", format!("{:?}", m)))?;
+    let prov = fd.table_provider(0).map_err(|m| fail("output-not-loadable", format!("{:?}", m)))?;
+    let font = Font::new(prov).map_err(|m| fail("output-not-loadable", format!("Font::new: {:?}", m)))?;
+    if font.is_variable() {
+        return Err(fail("output-is-variable", "Font::is_variable() is true for the instance".into()));
+    }
+    Ok(())
+}
+
+pub fn check_cff2_case(case: &Cff2Case, rec: &mut Rec) -> CaseResult {
+    let b = c18::build(&case.cs);
+    let vs = b.vstore.as_ref().expect("variable C18 case has a VariationStore");
+    let n_axes = case.axes.len();
+    let (axes, fvar, avar) = axes_tables(&case.axes, case.with_avar);
+    let vs_regions: Vec<Region> = vs.regions.iter().map(|r| vs_region(r, n_axes)).collect();
+    let mut all_regions = vs_regions.clone();
+    // a region whose peaks are all zero applies (scalar 1) everywhere, the default location
+    // included; the C18 generator produces some
+    let always_on = vs_regions.iter().any(|r| r.iter().all(|a| a.peak == 0));
+    let n = b.glyphs.len();
+    // hmtx with varied advances / side bearings, a short tail sometimes
+    let mut metrics: Vec<(u16, i16)> = (0..n).map(|g| {
+        let h = mix64(((case.hmtx_seed as u64) << 8) ^ g as u64);
+        (200 + (h % 900) as u16, ((h >> 16) % 121) as i16 - 60)
+    }).collect();
+    let short_tail = case.hmtx_seed & 1 == 1 && n >= 2;
+    if short_tail {
+        metrics[n - 1].0 = metrics[n - 2].0;
+    }
+    let nhm = if short_tail { (n - 1) as u16 } else { n as u16 };
+    let adv_max = metrics.iter().map(|m| m.0).max().unwrap_or(0);
+    let mut extra: Vec<([u8; 4], Vec<u8>)> = vec![
+        (*b"fvar", fvar),
+        (*b"hmtx", crate::fontgen::basic::hmtx(&metrics, nhm)),
+        (*b"hhea", crate::fontgen::basic::hhea(800, -200, adv_max, nhm)),
+    ];
+    if let Some(a) = avar {
+        extra.push((*b"avar", a));
+    }
+    let mut hvar_model = None;
+    if let Some(h) = &case.hvar {
+        let mut uniq: Vec<Region> = Vec::new();
+        for r in vs_regions.iter().filter(|r| r.iter().any(|a| a.peak != 0)).cloned() {
+            if !uniq.contains(&r) {
+                uniq.push(r);
+            }
+        }
+        if h.seed & 1 == 1 || uniq.is_empty() {
+            let r: Region = (0..n_axes).map(|a| implied_axis_region(if a == 0 { -16384 } else { 0 })).collect();
+            if !uniq.contains(&r) {
+                uniq.push(r);
+            }
+        }
+        let rows: Vec<Vec<i32>> = (0..n)
+            .map(|g| (0..uniq.len()).map(|r| {
+                let hh = mix64(((h.seed as u64) << 20) ^ ((g * 17 + r) as u64));
+                if hh & 7 == 0 { (hh >> 8) as i32 % 400 - 200 } else { (hh >> 8) as i32 % 100 - 50 }
+            }).collect())
+            .collect();
+        for r in &uniq {
+            if !all_regions.contains(r) {
+                all_regions.push(r.clone());
+            }
+        }
+        let (bytes, model) = encode_hvar(h, n_axes, &uniq, &rows);
+        extra.push((*b"HVAR", bytes));
+        hvar_model = Some(model);
+    }
+    let mut mvar_model = None;
+    if let Some(m) = &case.mvar {
+        let (bytes, model, regions) = encode_mvar(m, n_axes, false);
+        for r in &regions {
+            if !all_regions.contains(r) {
+                all_regions.push(r.clone());
+            }
+        }
+        extra.push((*b"MVAR", bytes));
+        mvar_model = Some(model);
+    }
+    let font = build_otf(b.table.clone(), true, n as u16, &extra);
+    rec.artefact("font", &font);
+    rec.hash_bytes(&font);
+
+    // ---- harness self-check: my interpreter on the source reproduces the model at a tuple
+    let src_t2 = T2Font::parse_cff2(&b.table).unwrap_or_else(|e| panic!("harness self-check: refmodel cannot parse the generated CFF2 table: {}", e));
+    let src_metrics = read_hmtx(&font).expect("own font hmtx");
+    assert_eq!(src_metrics, metrics, "hmtx round trip");
+    let src_fields = metric_fields(&font).expect("own font metric fields");
+
+    let fd = ReadScope::new(&font).read::<FontData<'_>>().map_err(|e| fail("source-not-loadable", format!("{:?}", e)))?;
+    let prov = fd.table_provider(0).map_err(|e| fail("source-not-loadable", format!("{:?}", e)))?;
+    let mut users: Vec<Vec<i32>> = vec![axes.iter().map(|a| a.default).collect()];
+    for cs in &case.coords {
+        users.push(axes.iter().enumerate().map(|(i, a)| user_value(&cs[i], a, i, &all_regions)).collect());
+    }
+    let mut agg = Agg::default();
+    let mut frac = false;
+    let mut multi_axis = false;
+    let mut on_edge = false;
+    let mut locs = Vec::new();
+    for (ui, user) in users.iter().enumerate() {
+        let tuple: Vec<Fixed> = user.iter().map(|v| Fixed::from_raw(*v)).collect();
+        let (out, loc) = allsorts::variations::instance(&prov, &tuple)
+            .map_err(|e| fail("cff2-instance-err", format!("instance() failed on a well-formed generated CFF2 font at user tuple {:?}: {:?}", user, e)))?;
+        let loc: Vec<i16> = loc.iter().map(|v| v.raw_value()).collect();
+        if ui == 0 && loc.iter().any(|v| *v != 0) {
+            return Err(fail("default-not-zero", format!("default user coordinates normalise to {:?}", loc)));
+        }
+        let coords: Vec<f64> = loc.iter().map(|v| *v as f64 / 16384.0).collect();
+        let mut wants = Vec::new();
+        for (g, gi) in b.glyphs.iter().enumerate() {
+            let sc: Vec<f64> = vs.data[gi.vsindex].iter().map(|r| region_scalar(&loc, &vs_regions[*r as usize])).collect();
+            if gi.blends > 0 {
+                frac |= sc.iter().any(|s| *s > 0.0 && *s < 1.0);
+                for r in &vs.data[gi.vsindex] {
+                    let reg = &vs_regions[*r as usize];
+                    let fa = reg.iter().enumerate().filter(|(i, a)| { let s = crate::refmodel::varmodel::axis_scalar(loc[*i], **a); s > 0.0 && s < 1.0 }).count();
+                    multi_axis |= fa > 1;
+                    on_edge |= reg.iter().enumerate().any(|(i, a)| a.peak != 0 && (loc[i] == a.start || loc[i] == a.peak || loc[i] == a.end));
+                }
+            }
+            let want = gi.model.commands(Some(&sc));
+            // self-check against the independent interpreter run on the *source* with the tuple
+            match src_t2.outline(g, Some(&coords), &Deviations::default()) {
+                Ok(cmds) => {
+                    if let Some(d) = diff_commands(&cmds, &want, 1e-6) {
+                        panic!("harness self-check: glyph {} at {:?}: my interpreter on the source disagrees with the model: {}", g, loc, d);
+                    }
+                }
+                Err(e) => panic!("harness self-check: glyph {}: my interpreter fails on the generated source: {}", g, e),
+            }
+            // blended operands are written back as 16.16 numbers (or integers when whole):
+            // 2^-17 per operand, plus f32 arithmetic at the magnitude reached; floor 2^-8
+            let tol = 1.0 / 256.0 + gi.nops as f64 * ((max_abs_coord(&want) + 64.0) / 4_194_304.0 + 1.0 / 65536.0);
+            wants.push((want, tol.min(1.0)));
+        }
+        let e = Cff2Expect { wants, src_metrics: &src_metrics, src_long_metrics: nhm as usize, src_fields: &src_fields, hvar: hvar_model.as_ref(), mvar: mvar_model.as_ref(), exact_default: !always_on };
+        check_cff2_instance(&e, &out, &loc, &mut agg)?;
+        locs.push(loc);
+    }
+    // ---- classification
+    let any_blend = b.glyphs.iter().any(|g| g.blends > 0);
+    rec.evaluations(users.len() as u64 - 1);
+    rec.set_nontrivial(any_blend && frac);
+    rec.class_if(any_blend, "cff2:blend");
+    rec.class_if(frac, "cff2:scalar-fractional");
+    rec.class_if(on_edge, "cff2:coordinate-on-region-edge");
+    rec.class_if(multi_axis, "cff2:multi-axis-product");
+    rec.class(&format!("cff2:axes:{}", n_axes));
+    rec.class_if(b.glyphs.iter().any(|g| g.fd != 0), "cff2:multi-FD");
+    rec.class_if(b.glyphs.iter().any(|g| g.fd != 0 && g.blends > 0), "cff2:blend-in-fd!=0");
+    rec.class_if(b.glyphs.iter().any(|g| g.vsindex != 0 && g.blends > 0), "cff2:vsindex!=0");
+    rec.class_if(vs.data.len() > 1, "cff2:ItemVariationData>1");
+    rec.class_if(vs_regions.iter().any(|r| r.iter().any(|a| *a != implied_axis_region(a.peak))), "cff2:intermediate-region");
+    rec.class_if(vs_regions.iter().any(|r| r.iter().filter(|a| a.peak != 0).count() > 1), "cff2:multi-axis-region");
+    let subr_blend = src_t2.gsubrs.iter().any(|s| body_has_blend(s)) || src_t2.fds.iter().any(|f| f.lsubrs.iter().any(|s| body_has_blend(s)));
+    rec.class_if(subr_blend, "cff2:blend-inside-subr");
+    rec.class_if(b.glyphs.iter().any(|g| g.depth > 0), "cff2:subr-calls");
+    rec.class_if(b.glyphs.iter().any(|g| g.stats.masks > 0), "cff2:hintmask");
+    rec.class_if(b.glyphs.iter().any(|g| g.stats.forms.iter().any(|f| f.contains("flex"))), "cff2:flex");
+    rec.class_if(case.with_avar, "cff2:avar");
+    rec.class_if(hvar_model.is_some(), "cff2:HVAR");
+    rec.class_if(case.hvar.as_ref().map(|h| h.mapped).unwrap_or(false), "cff2:HVAR-mapped");
+    rec.class_if(agg.lsb_from_hvar > 0, "cff2:HVAR-lsb-map");
+    rec.class_if(agg.mvar_checked > 0, "cff2:MVAR-field-checked");
+    rec.class_if(short_tail, "cff2:hmtx-short-tail");
+    rec.class_if(always_on, "cff2:region-all-peaks-zero");
+    if let Some(f) = agg.deferred.take() {
+        return Err(f);
+    }
+    rec.sample(|| format!("cff2: {} axes, {} glyphs, {} FDs, {} regions / {} subtables, blends {:?}, locations {:?}", n_axes, n, case.cs.nfd, vs.regions.len(), vs.data.len(), b.glyphs.iter().map(|g| g.blends).collect::<Vec<_>>(), locs));
+    Ok(())
+}
+
+const CFF2_FIXTURES: [&str; 3] = [
+    "fonts/opentype/cff2/SourceSansVariable-Roman.abc.otf",
+    "fonts/opentype/cff2/SourceSans3.abc.otf",
+    "fonts/opentype/cff2/SourceSans3-Instance.256.otf",
+];
+
+fn check_cff2_fixture(item: u64, rec: &mut Rec) -> CaseResult {
+    // item 0, 1: the two static CFF2 fonts (must be refused); the rest: coordinates of the VF
+    let (name, k) = if item < 2 { (CFF2_FIXTURES[1 + item as usize], 0) } else { (CFF2_FIXTURES[0], item - 2) };
+    let bytes = match fixtures::read(name) {
+        Some(b) => b,
+        None => {
+            rec.class("fixture-missing");
+            return Ok(());
+        }
+    };
+    let fd = ReadScope::new(&bytes).read::<FontData<'_>>().map_err(|e| fail("source-not-loadable", format!("{:?}", e)))?;
+    let prov = fd.table_provider(0).map_err(|e| fail("source-not-loadable", format!("{:?}", e)))?;
+    if item < 2 {
+        return match allsorts::variations::instance(&prov, &[]) {
+            Err(allsorts::variations::VariationError::NotVariableFont) => {
+                rec.class("cff2-fixture:static-font-refused");
+                rec.nontrivial();
+                rec.hash_u64(item);
+                Ok(())
+            }
+            other => Err(fail("cff2-static-font-not-refused", format!("{}: instance() of a font without fvar gave {:?}", name, other.map(|r| r.0.len())))),
+        };
+    }
+    let dec = |e: String| Fail::new("C12:fixture-decode", format!("{}: my decoders cannot read the fixture: {}", name, e));
+    let axes = read_fvar_axes(find_table(&bytes, b"fvar").ok_or_else(|| dec("no fvar".into()))?).ok_or_else(|| dec("fvar unreadable".into()))?;
+    let table = find_table(&bytes, b"CFF2").ok_or_else(|| dec("no CFF2".into()))?;
+    let src_t2 = T2Font::parse_cff2(table).map_err(dec)?;
+    let vstore = src_t2.vstore.clone().ok_or_else(|| dec("no VariationStore".into()))?;
+    let q = |v: f64| (v * 16384.0).round() as i16;
+    let mut regions: Vec<Region> = vstore.regions.iter().map(|r| r.iter().map(|a| AxisRegion { start: q(a.0), peak: q(a.1), end: q(a.2) }).collect()).collect();
+    let hvar = match find_table(&bytes, b"HVAR") {
+        Some(d) => Some(decode_hvar(d).map_err(dec)?),
+        None => None,
+    };
+    let mvar = match find_table(&bytes, b"MVAR") {
+        Some(d) => {
+            let (recs, ivs) = decode_mvar(d).map_err(dec)?;
+            ivs.map(|i| (recs, i))
+        }
+        None => None,
+    };
+    if let Some((_, ivs)) = &mvar {
+        regions.extend(ivs.regions.iter().cloned());
+    }
+    if let Some(h) = &hvar {
+        regions.extend(h.ivs.regions.iter().cloned());
+    }
+    let user: Vec<i32> = axes
+        .iter()
+        .enumerate()
+        .map(|(i, a)| {
+            if k == 0 {
+                a.default
+            } else {
+                let h = mix64(item.wrapping_mul(0x51ed) ^ ((i as u64) << 40));
+                let kind = [0u8, 1, 2, 3, 3, 3, 4, 5, 5, 5, 6, 7][(h % 12) as usize];
+                user_value(&CoordSpec { kind, r: (h >> 16) as u32, off: if h & 0x100 != 0 { 1 } else { -1 } }, a, i, &regions)
+            }
+        })
+        .collect();
+    let tuple: Vec<Fixed> = user.iter().map(|v| Fixed::from_raw(*v)).collect();
+    let (out, loc) = allsorts::variations::instance(&prov, &tuple).map_err(|e| fail("cff2-instance-err", format!("{}: instance() failed at user tuple {:?}: {:?}", name, user, e)))?;
+    let loc: Vec<i16> = loc.iter().map(|v| v.raw_value()).collect();
+    let coords: Vec<f64> = loc.iter().map(|v| *v as f64 / 16384.0).collect();
+    let mut wants = Vec::new();
+    for g in 0..src_t2.charstrings.len() {
+        // the reference: my interpreter on the *source* charstring with the tuple
+        let want = src_t2.outline(g, Some(&coords), &Deviations::default()).map_err(|e| dec(format!("glyph {}: {}", g, e)))?;
+        wants.push((want, 1.0 / 64.0));
+    }
+    let src_metrics = read_hmtx(&bytes).map_err(dec)?;
+    let src_fields = metric_fields(&bytes).map_err(dec)?;
+    let src_long = find_table(&bytes, b"hhea").and_then(|h| be16(h, 34)).unwrap_or(0) as usize;
+    let exact_default = !regions.iter().any(|r| r.iter().all(|a| a.peak == 0));
+    let e = Cff2Expect { wants, src_metrics: &src_metrics, src_long_metrics: src_long, src_fields: &src_fields, hvar: hvar.as_ref(), mvar: mvar.as_ref(), exact_default };
+    let mut agg = Agg::default();
+    check_cff2_instance(&e, &out, &loc, &mut agg).map_err(|f| Fail::new(f.sig, format!("{} (user {:?}): {}", name, user, f.msg)))?;
+    rec.class("cff2-fixture:SourceSansVariable-Roman.abc");
+    rec.class_if(agg.mvar_checked > 0, "cff2-fixture:MVAR-field-checked");
+    rec.class_if(hvar.is_some(), "cff2-fixture:HVAR");
+    rec.set_nontrivial(loc.iter().any(|v| *v != 0 && v.abs() != 16384));
+    rec.hash_u64(item);
+    rec.sample(|| format!("{} at {:?} -> {:?}", name, user, loc));
+    Ok(())
+}
+
 impl Property for C12 {
     fn id(&self) -> &'static str {
         "C12"
@@ -1736,5 +2335,9 @@ impl Property for C12 {
         // the repository's TrueType variable fonts, decoded by my own gvar/HVAR/MVAR decoders
         let per_font = ctx.cases(FIXTURE_COORDS, 2_000);
         ctx.enumerate("fixtures", FIXTURES.len() as u64 * per_font, false, |i, rec| check_fixture(i, rec));
+        // CFF2 instancing: generated CFF2 variable fonts (C18 generator) and the CFF2 fixtures
+        let n = ctx.cases(2_000, 400_000);
+        ctx.section("cff2-model", n, cff2_case_strategy(), |c, rec| check_cff2_case(c, rec));
+        ctx.enumerate("cff2-fixtures", 2 + 2 * per_font, false, |i, rec| check_cff2_fixture(i, rec));
     }
 }
